@@ -793,6 +793,12 @@ func genGuards(repo string) (string, []string, error) {
 										if id, ok := se.X.(*ast.Ident); ok && id.Name == rn {
 											selPath = []string{se.Sel.Name}
 										}
+										// `return m.Inner.GetSigners()`: the signer is the embedded message's own signer field
+										if inner, ok := se.X.(*ast.SelectorExpr); ok && se.Sel.Name == "GetSigners" {
+											if id, ok := inner.X.(*ast.Ident); ok && id.Name == rn {
+												selPath = []string{inner.Sel.Name, "Signer"}
+											}
+										}
 									}
 									return true
 								})
@@ -964,6 +970,27 @@ func genGuards(repo string) (string, []string, error) {
 		fmt.Fprintf(&b, "    -- %s/%s %s\n", r.service, r.method, detail)
 	}
 	b.WriteString("]\n\n/-- the rows without their names (what the theorems quantify over) -/\ndef entries : List GuardEntry := table.map (·.2)\n")
+	b.WriteString("\n/-- Go field path of the signer of every Msg row (from the cosmos.msg.v1.signer option in the embedded file descriptor, or from GetSigners) -/\ndef signers : List (String × String) := [\n")
+	first := true
+	for _, r := range rows {
+		if r.legacy || r.signer == "" {
+			continue
+		}
+		path := strings.TrimPrefix(r.signer, "go:")
+		if !strings.HasPrefix(r.signer, "go:") {
+			var parts []string
+			for _, x := range strings.Split(strings.Split(r.signer, ",")[0], ".") {
+				parts = append(parts, snakeToCamel(x))
+			}
+			path = strings.Join(parts, ".")
+		}
+		if !first {
+			b.WriteString(",\n")
+		}
+		first = false
+		fmt.Fprintf(&b, "  (%q, %q)", r.key, path)
+	}
+	b.WriteString("\n]\n")
 	b.WriteString("\nend DymVerif.Gen.Guards\n")
 	if len(rows) == 0 {
 		return "", nil, fmt.Errorf("no Msg services found under %s/x", repo)
